@@ -10,7 +10,8 @@ def cfgOf (methods : List Method) : Cfg :=
   { methods := methods
     threshold := Nuts.Facts.C13.sweepThresholdSeconds
     notFoundIsUncommitted := Nuts.Facts.C13.nutsIsCommittedNotFoundIsUncommitted
-    rollbackDeletesCreatedDID := Nuts.Facts.C13.rollbackDeletesCreatedDID }
+    rollbackDeletesCreatedDID := Nuts.Facts.C13.rollbackDeletesCreatedDID
+    sweepWholeTx := Nuts.Facts.C13.sweepLoadsWholeTransaction }
 
 structure St where
   cfg : Cfg := cfgOf []
@@ -119,12 +120,19 @@ def step (st : St) (j : Json) : St × List String :=
   match jStr j "op" with
   | "cfg" =>
     let ms := (jStrs j "methods").filterMap parseMethod
-    let st : St := { cfg := cfgOf ms }
+    let st : St := { cfg := cfgOf ms, w := { now := 100000 } }
     let (st, o) := observe st "cfg"
     (st, [o])
   | "tick" =>
     let st := { st with w := tick (jNat j "d") st.w }
     let (st, o) := observe st "tick"
+    (st, [o])
+  | "skew" =>
+    -- the pending versions of one method are `d` seconds older
+    let m := parseMethod (jStr j "a")
+    let d := jNat j "d"
+    let st := { st with w := restamp (fun r v => if some r.method == m && v.pending.isSome then v.ts - d else v.ts) st.w }
+    let (st, o) := observe st "skew"
     (st, [o])
   | "sweep" =>
     let (w, r) := sweep st.cfg id st.w
